@@ -1920,6 +1920,16 @@ impl NodeMut for XmlElement {
             return Err(error::DomException::WrongDocumentErr)?;
         }
 
+        if let XmlNode::ExpandedText(text) = old_child {
+            // A merged text node stands for several adjacent items: remove all of them.
+            for part in text.data.iter() {
+                if self.element.borrow().delete(part.id()).is_none() {
+                    return Err(error::DomException::NotFoundErr)?;
+                }
+            }
+            return Ok(old_child.clone());
+        }
+
         match self.element.borrow().delete(old_child.id()) {
             Some(v) => Ok(XmlNode::from(v)),
             _ => Err(error::DomException::NotFoundErr)?,
